@@ -167,9 +167,51 @@ class _Desugar(ast.NodeTransformer):
                 return t
         return node
 
+    def _tuple_match(self, node):
+        """match (e0, .., en-1): with every case a sequence pattern of n sub-patterns (no star) or a wildcard: the elements are bound to
+        temporaries once, in order, and each case tests them one by one - no tuple is built, no Sequence / length test is needed"""
+        n = len(node.subject.elts)
+        for c in node.cases:
+            pt = c.pattern
+            if isinstance(pt, ast.MatchAs) and pt.pattern is None and pt.name is None:
+                continue
+            if not (isinstance(pt, ast.MatchSequence) and len(pt.patterns) == n and not any(isinstance(x, ast.MatchStar) for x in pt.patterns)):
+                return None
+        tmps = ['__match_%d_%d_%d' % (node.lineno, node.col_offset, i) for i in range(n)]
+        out = [ast.Assign(targets=[_name(t, ast.Store())], value=e) for t, e in zip(tmps, node.subject.elts)]
+
+        def chain(cases):
+            if not cases:
+                return []
+            c = cases[0]
+            if isinstance(c.pattern, ast.MatchAs):
+                test, binds = ast.Constant(value=True), []
+            else:
+                parts = [_pattern(x, _name(t)) for x, t in zip(c.pattern.patterns, tmps)]
+                test, binds = _and([t for t, _ in parts]), [b for _, bs in parts for b in bs]
+            rest = chain(cases[1:])
+            body = list(c.body)
+            if c.guard is not None:
+                body = [ast.If(test=c.guard, body=body, orelse=rest)]
+            body = binds + body
+            if isinstance(test, ast.Constant) and test.value is True:
+                return body
+            return [ast.If(test=test, body=body, orelse=rest)]
+        return out + chain(list(node.cases))
+
     def visit_Match(self, node):
         self.generic_visit(node)
         try:
+            if isinstance(node.subject, ast.Tuple) and not any(isinstance(x, ast.Starred) for x in node.subject.elts):
+                tm = self._tuple_match(node)
+                if tm is not None:
+                    for st in tm:
+                        ast.copy_location(st, node)
+                        for sub in ast.walk(st):
+                            if not hasattr(sub, 'lineno') and isinstance(sub, (ast.expr, ast.stmt)):
+                                ast.copy_location(sub, node)
+                        ast.fix_missing_locations(st)
+                    return tm
             tmp = '__match_%d_%d' % (node.lineno, node.col_offset)
             subj = node.subject if isinstance(node.subject, ast.Name) else _name(tmp)
             out = [] if isinstance(node.subject, ast.Name) else [ast.Assign(targets=[_name(tmp, ast.Store())], value=node.subject)]
